@@ -117,8 +117,17 @@ def _queue(db, chk, m, TR):
     joins = [e for e in ev if e["kind"] == "join"]
     concats = [e for e in ev if e["kind"] == "concat"]
     sorts = [e for e in ev if e["kind"] == "sort"]
-    if len(joins) != 1 or len(sorts) != 1 or not concats:
-        chk.ob(rule, "pipeline shape: one launch/activity join, one sweep sort", None, where, found={"joins": len(joins), "sorts": len(sorts), "concats": len(concats)})
+    # the sweep sort is the (first) sort the cumulative sum runs over; any later sort must keep the order inside a stream (stable, by the stream alone)
+    later_sorts = sorts[1:]
+    regroup_ok = all(e["sort_kind"] in ("stable", "mergesort") and list(e["by"]) == ["stream"] for e in later_sorts)
+    unstable = [e for e in later_sorts if e["sort_kind"] not in ("stable", "mergesort") and list(e["by"]) == ["stream"]]
+    if unstable:
+        chk.ob("C14.R2-tie-order", "a re-grouping of the finished series by stream keeps the order inside each stream (stable sort)", False, where, found=[(list(e["by"]), e["sort_kind"]) for e in unstable],
+               accepted="sort_values(by='stream', kind='stable')", why="an unstable sort by stream may reorder the rows of one stream: the step function is no longer in time order")
+        return
+    if len(joins) != 1 or not sorts or not concats or not regroup_ok:
+        chk.ob(rule, "pipeline shape: one launch/activity join, one sweep sort (later sorts only regroup by stream, stably)", None, where,
+               found={"joins": len(joins), "sorts": [(list(e["by"]), e["sort_kind"]) for e in sorts], "concats": len(concats)})
         return
     J = joins[0]
     jbase = ("join", J["how"], J["left"], J["right"], J["left_key_terms"], J["right_key_terms"], J["suffixes"])
@@ -166,10 +175,14 @@ def _queue(db, chk, m, TR):
     # cumsum context: per stream, in the sweep order
     srows = sctx[1]
     gk = ("gbkey", None)
-    okctx = isinstance(sctx[2], tuple) and sctx[2][0] == "sort" and srows[0] in ("cmp", "and")
     gi = [e for e in ev if e["kind"] == "groupby-iter"]
-    chk.ob(rule, "cumulative sum taken per stream, in the sweep order", okctx and len(gi) == 1 and gi[0]["keys"] == ["stream"], where,
-           found={"groupby": [e["keys"] for e in gi], "order": T.show_order(sctx[2])[:120]}, accepted="groupby('stream'), order of the sorted sweep")
+    by_param = [p_[1] for p_ in CS[2] if isinstance(p_, tuple) and len(p_) == 2 and p_[0] == "by"]
+    by_stream = len(by_param) == 1 and len(by_param[0]) == 1 and isinstance(by_param[0][0], tuple) and by_param[0][0][0] in ("ccol", "col") and by_param[0][0][1 if by_param[0][0][0] == "ccol" else 2] == "stream"
+    # per stream: a loop over groupby('stream') (the group's rows are the cumsum's context), or the grouped cumulative sum itself
+    per_stream = (len(gi) == 1 and gi[0]["keys"] == ["stream"] and srows[0] in ("cmp", "and") and not by_param) or (not gi and by_stream)
+    okctx = isinstance(sctx[2], tuple) and sctx[2][0] == "sort"
+    chk.ob(rule, "cumulative sum taken per stream, in the sweep order", okctx and per_stream, where,
+           found={"groupby": [e["keys"] for e in gi] or ("grouped cumsum by stream" if by_stream else [T.show(x)[:60] for x in by_param]), "order": T.show_order(sctx[2])[:120]}, accepted="groupby('stream'), order of the sorted sweep")
     cn = R.colnames()
     chk.ob(rule, "reported columns", cn == ["ts", "pid", "tid", "stream", "queue_length"], where, found=cn, accepted=["ts", "pid", "tid", "stream", "queue_length"])
     tsl = sorted(leaves(R.col("ts")), key=repr)
@@ -181,6 +194,8 @@ def _queue(db, chk, m, TR):
     for e in after:
         pred = e.get("pred")
         dups = T.find(pred, lambda s: s[0] == "duplicated") if pred is not None else []
+        if e["kind"] == "filter" and isinstance(pred, tuple) and pred[0] == "notnull" and isinstance(pred[1], tuple) and pred[1][0] == "ccol" and pred[1][1] == "stream":
+            continue          # rows without a stream belong to no queue (a groupby over the stream drops them as well)
         if e["kind"] == "filter" and len(dups) == 1 and pred == ("not", dups[0]) or (len(dups) == 1 and pred == T.not_(dups[0])):
             verdict = verdict and (dups[0][1] == "last")   # keeping the LAST row of an instant preserves the step function
         else:
